@@ -35,6 +35,30 @@ type deepPtr struct {
 	P **zoo.Small
 	L *[]*zoo.Item
 }
+type recCustom struct {
+	Name string
+	Next *recCustom
+	Kids []*recCustom
+}
+
+func (recCustom) HessianCodecName() string { return "com.example.Rec" }
+
+type recCustomPair struct {
+	A *recCustomB
+}
+type recCustomB struct {
+	Back *recCustomPair
+	M    map[string]*recCustomB
+}
+
+func (recCustomB) HessianCodecName() string { return "com.example.RecB" }
+
+type nestEmpty struct {
+	LL [][]zoo.Item
+	ML map[string][]*zoo.Custom
+	LM []map[string]zoo.Five
+}
+
 type holdIface struct {
 	L []interface{}
 	M map[string]interface{}
@@ -43,6 +67,7 @@ type holdIface struct {
 var extractTypes = []interface{}{
 	zoo.Scalars{}, zoo.Small{}, zoo.Slices{}, zoo.Conts{}, zoo.Derived{}, zoo.CustomHolder{}, zoo.Custom{}, zoo.NamedMapHolder{},
 	zoo.Node{}, zoo.FNode{}, zoo.Ping{}, zoo.Pong{}, zoo.Wide{}, zoo.Five{}, selfSlice{}, mutA{}, mutB{}, deepPtr{}, holdIface{},
+	recCustom{}, recCustomPair{}, nestEmpty{},
 	[]zoo.Small{}, []*zoo.Node{}, [][]zoo.Item{}, map[string]*zoo.Ping{}, map[string][]zoo.Custom{}, zoo.Nodes{},
 }
 
@@ -269,7 +294,7 @@ func runExtract(seed int64, tier, out string, shards, only int) {
 	in.Close()
 	cmd.Wait()
 	s := proj.M{"evaluations": n + nrt, "traces": n + nrt, "distinct_nontrivial": n, "samples": samples, "worker_crashes": crashes, "second_value_round_trips": nrt,
-		"family_rule": "25 types (zoo + self-referential through slices, mutually recursive, pointer-to-pointer, interface holders) x witnesses {zero value, pointer to zero, seeded from all-nil to fully populated}; ExtractTypeNameMap / TypeMapFrom / NameMapFrom / TypeMapOf in a worker process; then round trips of independently generated values with the witness's maps"}
+		"family_rule": "28 types (zoo + self-referential through slices, mutually recursive, pointer-to-pointer, interface holders) x witnesses {zero value, pointer to zero, seeded from all-nil to fully populated}; ExtractTypeNameMap / TypeMapFrom / NameMapFrom / TypeMapOf in a worker process; then round trips of independently generated values with the witness's maps"}
 	b, _ := json.Marshal(s)
 	os.WriteFile(out+"/summary.json", b, 0o644)
 	_ = zoo.Small{}
